@@ -1,5 +1,5 @@
 import PV.C19.Types
-import PV.C17.Dec
+import PV.C17.Model
 /-
   C19 — executable model of `format/src/cformat.rs` (printf-style templates).
 
@@ -16,8 +16,9 @@ import PV.C17.Dec
   Text is a list of scalar values, so `chars().count()` is `List.length`.
 
   Every Rust panic is a value: `Res.panic` in the parser (`i32` overflow of the parenthesis
-  counter), `none` in the formatters (`unreachable!()` on a
-  conversion type the caller must not pass, a `format!` precision above `u16::MAX`).
+  counter), `none` in the formatters (`unreachable!()` on a conversion type the caller must not
+  pass).  A `format!` precision above `u16::MAX` used to be one more (panic in `float.rs`); the
+  repaired helpers clamp the digits they ask of `format!` and are total.
   `format_bytes` is modelled as repaired by /repo commit 86620af (no panic path left).
   Core Lean only.
 -/
@@ -349,9 +350,9 @@ def formatNumber (spec : Spec) (n : Int) : Option (List Nat) :=
 
 /-! ## floats (`literal/src/float.rs`), digits from `PV.Dec` -/
 
-/-- Rust's `format!` takes width and precision as `u16` (rustc ≥ 1.87): a run-time precision above
-    65535 panics ("Formatting argument out of range"). -/
-def fmtArgOk (p : Nat) : Bool := p ≤ 65535
+/-- `MAX_FLOAT_DIGITS` of `float.rs`: `format!` is asked for at most this many digits (its precision
+    argument is a `u16`); the rest of a larger precision is appended as `'0'` characters. -/
+def maxFloatDigits : Nat := PV.C17.maxFloatDigits
 
 def nanText (upper : Bool) : List Nat := if upper then [78, 65, 78] else [110, 97, 110]
 def infText (upper : Bool) : List Nat := if upper then [73, 78, 70] else [105, 110, 102]
@@ -365,14 +366,17 @@ def expText (e : Int) : List Nat :=
   let ds := toRadix 10 e.natAbs false
   (if e < 0 then 45 else 43) :: (if ds.length < 2 then 48 :: ds else ds)
 
-/-- `{magnitude:.precision$}` on a non-negative finite double -/
-def rustFixed (bits precision : Nat) : Option (List Nat) :=
-  if fmtArgOk precision then some (PV.Dec.toFixedL bits precision) else none
+/-- `"0".repeat(precision - digits)` with `digits = precision.min(MAX_FLOAT_DIGITS)` -/
+def zerosBeyond (precision : Nat) : List Nat :=
+  List.replicate (precision - min precision maxFloatDigits) 48
 
-/-- `{magnitude:.precision$e}` split at the `e`; the implementation adds one to the `u16`
-    precision, so 65535 already fails -/
-def rustExp (bits precision : Nat) : Option (List Nat × Int) :=
-  if fmtArgOk (precision + 1) then some (PV.Dec.toExpL bits precision) else none
+/-- `{magnitude:.digits$}{zeros}` on a non-negative finite double -/
+def rustFixed (bits precision : Nat) : List Nat :=
+  PV.Dec.toFixedL bits (min precision maxFloatDigits) ++ zerosBeyond precision
+
+/-- `{magnitude:.digits$e}` split at the `e` -/
+def rustExp (bits precision : Nat) : List Nat × Int :=
+  PV.Dec.toExpL bits (min precision maxFloatDigits)
 
 def dropTrailing (c : Nat) (s : List Nat) : List Nat := (s.reverse.dropWhile (· == c)).reverse
 
@@ -386,41 +390,35 @@ def removeRedundant (s : List Nat) (alt : Bool) : List Nat :=
   else s
 
 /-- `format_fixed` on the magnitude -/
-def formatFixed (precision bits : Nat) (upper alt : Bool) : Option (List Nat) :=
-  if PV.Dec.isNan bits then some (nanText upper)
-  else if PV.Dec.isInf bits then some (infText upper)
-  else match rustFixed bits precision with
-    | some t => some (t ++ decimalPointOrEmpty precision alt)
-    | none => none
+def formatFixed (precision bits : Nat) (upper alt : Bool) : List Nat :=
+  if PV.Dec.isNan bits then nanText upper
+  else if PV.Dec.isInf bits then infText upper
+  else rustFixed bits precision ++ decimalPointOrEmpty precision alt
 
-/-- `format_exponent` on the magnitude -/
-def formatExponent (precision bits : Nat) (upper alt : Bool) : Option (List Nat) :=
-  if PV.Dec.isNan bits then some (nanText upper)
-  else if PV.Dec.isInf bits then some (infText upper)
-  else match rustExp bits precision with
-    | some (base, e) =>
-      some (base ++ decimalPointOrEmpty precision alt ++ [if upper then 69 else 101] ++ expText e)
-    | none => none
+/-- `format_exponent` on the magnitude: `{base}{zeros}{point}{e}{exponent:+#03}` -/
+def formatExponent (precision bits : Nat) (upper alt : Bool) : List Nat :=
+  if PV.Dec.isNan bits then nanText upper
+  else if PV.Dec.isInf bits then infText upper
+  else
+    let (base, e) := rustExp bits precision
+    base ++ zerosBeyond precision ++ decimalPointOrEmpty precision alt ++ [if upper then 69 else 101] ++ expText e
 
 /-- `format_general` on the magnitude (`always_shows_fract = false`) -/
-def formatGeneral (precision bits : Nat) (upper alt : Bool) : Option (List Nat) :=
+def formatGeneral (precision bits : Nat) (upper alt : Bool) : List Nat :=
   let precision := max precision 1       -- "C and Python treat a precision of 0 as 1 for %g" (668a737)
-  if PV.Dec.isNan bits then some (nanText upper)
-  else if PV.Dec.isInf bits then some (infText upper)
-  else match rustExp bits (precision - 1) with
-    | none => none
-    | some (base, e) =>
-      if e < -4 ∨ e ≥ (precision : Int) then
-        -- `format!("{:.*}", precision + 1, base)`: a string truncated to `precision + 1` chars
-        if fmtArgOk (precision + 1) then
-          let base := removeRedundant (base.take (precision + 1)) alt
-          some (base ++ decimalPointOrEmpty (precision - 1) alt ++ [if upper then 69 else 101] ++ expText e)
-        else none
-      else
-        let p := ((precision : Int) - 1 - e).toNat
-        match rustFixed bits p with
-        | none => none
-        | some t => some (removeRedundant t alt ++ decimalPointOrEmpty p alt)
+  if PV.Dec.isNan bits then nanText upper
+  else if PV.Dec.isInf bits then infText upper
+  else
+    let (base, e) := rustExp bits (precision - 1)
+    if e < -4 ∨ e ≥ (precision : Int) then
+      -- `format!("{:.*}{zeros}", digits + 2, base)`: the mantissa string cut to `digits + 2` chars
+      let base := removeRedundant
+        (base.take (min (precision - 1) maxFloatDigits + 2) ++ zerosBeyond (precision - 1)) alt
+      base ++ decimalPointOrEmpty (precision - 1) alt ++ [if upper then 69 else 101] ++ expText e
+    else
+      let p := ((precision : Int) - 1 - e).toNat
+      -- `format_fixed(precision, magnitude, case, false)`
+      removeRedundant (formatFixed p bits upper false) alt ++ decimalPointOrEmpty p alt
 
 /-- the precision `format_float` passes on (default 6) -/
 def floatPrecision (spec : Spec) : Nat :=
@@ -430,14 +428,14 @@ def floatPrecision (spec : Spec) : Nat :=
   | some .dot => 0
   | none => 6
 
-/-- `magnitude_string` of `format_float`: the text of `num.abs()`; `none` = panic -/
+/-- `magnitude_string` of `format_float`: the text of `num.abs()`; `none` = panic (`unreachable!()`) -/
 def floatBody (spec : Spec) (bits : Nat) : Option (List Nat) :=
   let precision := floatPrecision spec
   let mag := bits % 2 ^ 63          -- `num.abs()`
   match spec.ftype with
-  | .float .fix up => formatFixed precision mag up spec.flags.alt
-  | .float .exp up => formatExponent precision mag up spec.flags.alt
-  | .float .gen up => formatGeneral (if precision = 0 then 1 else precision) mag up spec.flags.alt
+  | .float .fix up => some (formatFixed precision mag up spec.flags.alt)
+  | .float .exp up => some (formatExponent precision mag up spec.flags.alt)
+  | .float .gen up => some (formatGeneral (if precision = 0 then 1 else precision) mag up spec.flags.alt)
   | _ => none                       -- `unreachable!()`
 
 /-- `format_float`; `bits` is `f64::to_bits` -/
